@@ -221,7 +221,7 @@ CLAIMED["C16"] = {
             "as_rule(), == comparisons, Option tests, boolean flags, aliases through clone / Node::new_with_user_data, the Pratt-parser "
             "primary/prefix/infix/postfix partition read from the Op::infix(Rule::X) constants) and decides ~100 obligations: O1 a match on as_rule() "
             "whose fall-through can only panic has an arm for every rule the grammar can produce there; O2 an unwrapped next()/last() cannot be None; "
-            "O3 an unwrapped single() has exactly one child; O4 assert_eq!(node.as_rule(), Rule::X) holds for every node reaching it. Two further exact rules: break/continue resolve only to a loop of the same function (the scope scan stops at a function scope), and text-to-number conversions of literals are propagated, never unwrapped. Not decided: panics resting on typing/scoping invariants (counted), stack depth, termination.",
+            "O3 an unwrapped single() has exactly one child; O4 assert_eq!(node.as_rule(), Rule::X) holds for every node reaching it. Two further exact rules: break/continue resolve only to a loop of the same function (the scope scan stops at a function scope), text-to-number conversions of literals are propagated, never unwrapped, and no recursive walker of the syntax tree calls back into its own recursion cycle twice on the same child on one path (2^depth compile time). Not decided: panics resting on typing/scoping invariants (counted), stack depth, termination.",
     "technique": "static analysis: typestate / abstract interpretation of rustc MIR against automata built from the pest grammar",
     "design_ref": "DESIGN.md §5 C16, §4.8",
 }
